@@ -42,6 +42,7 @@ import enum
 import io
 import json
 import itertools
+import sys
 
 from lxml import etree
 import werkzeug.exceptions
@@ -654,7 +655,7 @@ class WSGIApp:
         cursor_str = request.args.get('cursor', default="0")
         try:
             limit, cursor = int(limit_str), int(cursor_str)
-            if limit < 0 or cursor < 0:
+            if limit < 0 or cursor < 0 or cursor + limit > sys.maxsize:
                 raise ValueError
         except ValueError:
             raise BadRequest("Cursor and limit must be positive integers!")
